@@ -224,3 +224,17 @@ def boundary_update_cases():
         fs = ";".join("%s=%d" % (hx("Rate" if i % 2 else "cwndcap"), i) for i in range(n))
         out.append("ALG %s 1 PROGS %s NF sp:p1:%s OR - SCRIPT %s" % (hx("reno"), cfg_progs, fs, script))
     return out
+
+
+def big_program_cases():
+    """a registered program whose INSTALL message is large (around and beyond 32 KiB, still below the 16-bit length limit): it must be
+    installed like any other - on ready, on first contact by create, on restart - before a flow selects it"""
+    out = []
+    for nst in (900, 1100, 1900):
+        big = "(def (Report (x 0))) (when true " + " ".join("(:= Report.x (+ Report.x %d))" % (i % 1000) for i in range(nst)) + " (report))"
+        progs = "p1=%s,p9=%s" % (hx(P1), hx(big))
+        cr = lambda sid: "CR.%d.10.1460.1.2.3.4.%s" % (sid, hx("reno"))
+        for script in ("5:RD.1 5:%s 5:MS.1.u:p9.1 5:MS.1.u:p1.2 X" % cr(1),
+                       "6:%s 6:MS.2.u:p9.1 6:RD.7 6:%s 6:MS.2.u:p9.3 5:RD.1 5:%s 5:MS.1.u:p9.4 X" % (cr(2), cr(2), cr(1))):
+            out.append("ALG %s 1 PROGS %s NF sp:p9:- OR sp:p1:-,sp:p9:- SCRIPT %s" % (hx("reno"), progs, script))
+    return out
